@@ -145,9 +145,18 @@ func worker(results chan<- result, files <-chan string, wg *sync.WaitGroup) {
 		res.file = file
 		f, err := os.Open(file)
 		if err != nil {
+			// Nothing to stat or read, report the error and move on to the next file
 			res.err = err
+			results <- res
+			continue
 		}
-		info, _ := f.Stat() //nolint: errcheck // The file is already open here so we can ignore the error
+		info, err := f.Stat()
+		if err != nil {
+			f.Close()
+			res.err = err
+			results <- res
+			continue
+		}
 		// Skip directories
 		if info.IsDir() {
 			continue
